@@ -51,6 +51,10 @@ def gen_plan(rng, nvars=None):
         pi = len(plan)
         plan.append({"kind": "d", "inp": params + [pi], "var": k})
         avail.append(pi)
+        if rng.random() < 0.35:
+            # a calculator that reads the variable's *value node* directly (as GraphBuilder.transform's back-transform does)
+            plan.append({"kind": "c", "inp": [vi] + ([pi] if rng.random() < 0.3 else [])})
+            avail.append(len(plan))
     # free-standing distribution nodes (extra factors of the joint density, no variable of their own) evaluated at
     # a variable: never simulated
     proxies = [i + 1 for i, p in enumerate(plan) if p["kind"] == "p"]
